@@ -22,9 +22,87 @@ def check(pid, technique, text, note, design):
 
 check("C01", "differential runtime monitor vs executable reference model (bounded-exhaustive short strings + generated/mutated inputs x bases)",
       "Runs the real parser on every string of length <= 5 (quick) / 6 (thorough) over a 12-symbol structural alphabet against 5 bases, and on "
-      "millions of corpus/grammar/mutated (input, base) pairs, comparing success, Href and the nine getters with an independent transcription "
+      "millions of corpus/grammar/mutated (input, base) pairs through all three entry points, comparing success, Href and the nine getters with an independent transcription "
       "of the standard after every call. Exploration: a sample of an infinite input space with an exhaustive small-string core.",
       TRUST_MODEL, "DESIGN.md §5 C01, §3")
+check("C02", "crash/termination monitor: recover() + hook-enforced logical step budget + RLIMIT_CPU watchdog with single-case confirmation, over option configurations x hostile histories",
+      "Every public call (parse, resolve, nine setters, SearchParams operations, Clone, Canonicalize) runs under recover() and a step budget counted by the verif hooks inside the parser loop and the "
+      "code-point cursor; a worker that dies or burns its CPU limit is attributed to the exact case through an mmap'ed crash buffer and re-run alone. Quick samples option masks, thorough "
+      "enumerates all 2^14 on/off combinations of the 10 switches + 4 hostile argument options, plus sampled full-space configurations and the four profiles. 'Always terminates' is restated as bounded progress.",
+      "Trusted base: the Go toolchain and runtime (its bounds/nil checks turn memory errors into the panics this monitor catches); the hooks only count. " + "Held = held on the executions listed in the evidence.", "DESIGN.md §5 C02, §2.2, §2.4")
+check("C03", "fixed-point runtime monitor on every reachable state (parse + after every setter step), exemption decided by the reference model",
+      "Re-parses the serialization of every URL state reached by parsing and by setter histories and compares Href and the nine getters; a state is exempt only if the reference model is in the same "
+      "state and the standard's own algorithms do not round-trip there. Open finding KF-A (ACE label emitted by the STD3 fallback) is recognised by a narrow classifier; any other failure is a violation.",
+      TRUST_MODEL, "DESIGN.md §5 C03")
+check("C04", "invariant monitor at every quiescent point (after every API call) of parse/setter/resolve histories",
+      "Asserts the structural invariants of the property (scheme grammar, host/path/opaque coherence, credentials/port guards, canonical non-default port, printable ASCII, percent-encode-set and "
+      "forbidden-code-point freedom per component, Href composition from the getters, Host/Hostname/Port, Href(true)) on a snapshot of the getters after every step.",
+      TRUST_REL + " Encode sets and forbidden sets as transcribed in SPEC-NOTES.md §A.", "DESIGN.md §5 C04")
+check("C05", "history + executable model: setter sequences applied to implementation and reference model, compared after every step; pairwise-exhaustive block",
+      "Applies sequences of the nine setters to the implementation and to the reference model's setter algorithms, carrying the model state along and comparing Href and all getters after every step, "
+      "so a divergence is attributed to the first differing call. A block of all ordered pairs of (setter, value) over curated pools on 30 start URLs is sampled (quick) or enumerated completely (thorough).",
+      TRUST_MODEL, "DESIGN.md §5 C05")
+check("C06", "relational (metamorphic) monitor: six resolution laws checked on generated (base, reference) pairs",
+      "Checks the laws the property lists (three entry points agree; serialization resolves to itself against any base; empty, '#f' and '?q' references; scheme inheritance; opaque bases) as relations "
+      "between calls of the real code, with no model involved. L2 inherits the open finding KF-A through the same classifier.",
+      TRUST_REL, "DESIGN.md §5 C06")
+check("C07", "differential monitor vs reference model plus an independent math/big oracle, bounded-exhaustive short hosts + generated dotted forms",
+      "Every host string of length <= 5/6 over '0 1 7 8 9 a f x X . + - g' in the six special schemes and as opaque host, plus generated dotted forms with radix mixes and boundary values (also "
+      "percent-encoded and fullwidth), compared with the model and with a separately written property-level oracle (ends-in-a-number, value of the parts, four octets).",
+      TRUST_MODEL, "DESIGN.md §5 C07")
+check("C08", "differential monitor vs reference model: exhaustive zero-mask grid for the compression rule, structural enumeration of bracket texts and arrangements, value/round-trip checks",
+      "All 256 zero/non-zero masks x 6 fillings through IPv6Addr.String() and through parsing (exhaustive for 'first longest run'), generated bracket texts and every bracket arrangement in special and "
+      "non-special URLs against the model; canonical text must denote the same 128-bit value and re-parse to itself.",
+      TRUST_MODEL, "DESIGN.md §5 C08")
+check("C09", "metamorphic runtime monitor: two spellings (ASCII case, whole-code-point percent-encoding) of one decoded host must give the same result",
+      "Generates decoded hosts from ASCII and Unicode pools and the IdnaTestV2/toascii inputs, spells each twice and requires equal hostnames (or both failing), ASCII-lowercase forbidden-free results, "
+      "the exact lowercased form for pure-ASCII non-ACE hosts, and the empty host for every spelling of localhost in file URLs. No Unicode mapping is demanded.",
+      TRUST_REL, "DESIGN.md §5 C09")
+check("C10", "exhaustive membership comparison (0x110000 code points x 6 sets) + copy-on-derive monitor with table fingerprint hook + codec-law monitor on strings",
+      "Set membership is a finite table and is compared completely on every run; Set/Clear chains must leave the parent (membership profile and fingerprint) untouched; encode/decode laws are checked "
+      "on generated strings by recomputing the exact expected encoding from the predicate.",
+      "Trusted base: the Go toolchain; the six predicates of SPEC-NOTES.md §A as the standard's sets. Membership half is exhaustive; string laws are exploration.", "DESIGN.md §5 C10")
+check("C11", "history + executable model: SearchParams operations vs a 30-line sequential list model, compared after every operation; urlencoded codec round trip",
+      "Initialises SearchParams from generated queries and applies operation histories to the implementation and to the list model; pair sequence, Get/GetAll/Has and the serialize->parse round trip are "
+      "compared after every step. The round-trip failures of the open finding KF-B are recognised only when the list read back is exactly what the known serializer predicts.",
+      "Trusted base: the Go toolchain; the urlencoded parser and list semantics of SPEC-NOTES.md §E. Held = held on the executions listed in the evidence.", "DESIGN.md §5 C11")
+check("C12", "invariant monitor over interleavings of SearchParams mutations, SetSearch and other setters, with several handles per URL",
+      "After every SearchParams mutation Query/Search/Href must equal the handle's serialization; after SetSearch every handle (also ones fetched earlier) must equal the urlencoded parse of the new "
+      "query; other setters must disturb neither side. Handles are read without mutating (String/GetAll/Has).",
+      TRUST_REL + " urlencoded parser of SPEC-NOTES.md §E.", "DESIGN.md §5 C12")
+check("C13", "two-sided isolation monitor with an independently constructed control twin (resolve and Clone pairs, operation sequences on either side)",
+      "Operations are applied to one of {base, result} / {original, clone}; the untouched side must keep every getter and its parameter list, and the operated side must equal a twin built from a "
+      "fresh parse of the same strings and the same operations, which by construction shares nothing. Behavioural verdict only.",
+      TRUST_REL, "DESIGN.md §5 C13")
+check("C14", "Go race detector (-race build) over barrier-released goroutine rounds on fresh shared objects + result equality with sequential twin + fingerprint hooks",
+      "The one compiler sanitizer that applies: rounds of 2-16 goroutines use shared parsers, profiles and a freshly parsed shared base URL (getters, Clone, resolution); race reports are counted "
+      "from the log and de-duplicated by stack; every concurrent result must equal the sequential one; table/parser/profile fingerprints and the base snapshot must be unchanged. The evidence lists "
+      "which operation pairs were actually in flight together.",
+      "Trusted base: the Go race detector (sees only races on executed paths within its shadow window) and toolchain. Counting hooks are disabled in this build (plain variables by design).", "DESIGN.md §5 C14")
+check("C15", "four-configuration relational monitor (default / reporting / fail-on-validation-error / both) + error classification against the constants of errors/codes.go",
+      "Parses every generated (input, base) under the four diagnostic configurations and checks the relations of the property between the runs, the documented type and failure flag of every returned "
+      "error and the non-fatal flag of every recorded entry. The documented set is read from /repo/errors/codes.go at run time.",
+      TRUST_REL, "DESIGN.md §5 C15")
+check("C16", "per-clause differential monitors between parsers built from different option lists; parameterised reference model for replaced encode sets and added special schemes",
+      "One sub-check per clause of the property: no-option equivalence, remove-* == setters with \"\" (model and implementation oracles), sort-query postconditions, default-scheme retry, conservative "
+      "extension of six relaxing options under over-approximated triggers (alone and combined), replaced sets / added schemes vs the model with the same table, collapse and skip-equals postconditions. "
+      "KF-B3 (sort re-serializes with the known serializer) is recognised by exact prediction.",
+      TRUST_MODEL, "DESIGN.md §5 C16")
+check("C17", "idempotence (fixed-point) runtime monitor over 98 option-composed profiles on all strings and GSB/Semantic on the ordinary-web-URL grammar",
+      "Canonicalizes, canonicalizes the result again and compares. Non-idempotence caused by the open findings (KF-A host, KF-B2 query re-serialization predicted exactly, KF-C opaque host decoding) "
+      "is recognised by classifiers over the witness; anything else is a violation.",
+      TRUST_REL, "DESIGN.md §5 C17")
+check("C18", "metamorphic runtime monitor: two independently varied spellings of one abstract ordinary web URL must canonicalize to the same string",
+      "Generates abstract URLs of the property's grammar and spells each twice with the listed variations (all of them for profiles with repeated decoding, the standard-normalised subset for every "
+      "profile incl. the 96 compositions) and requires equal canonical strings.",
+      TRUST_REL, "DESIGN.md §5 C18")
+check("C19", "invariant monitor on derived accessors after every step of parse/setter/resolve/clone histories",
+      "IsIPv4, IsIPv6, DecodedPort, Protocol/Scheme, Search/Query, Hash/Fragment, OpaquePath and IsSpecialScheme are recomputed from the primary components and the serialization and compared after every step.",
+      TRUST_REL, "DESIGN.md §5 C19")
+check("C20", "resource monitor: fitted growth exponent of allocated bytes (MemStats, GC off), hook-counted parser work and thread CPU time over repetition families",
+      "For 60 repetition families and n = 2^10..2^14 (2^18 thorough) the log-log slope of deterministic cost measures (allocated bytes, parser steps + cursor moves) must stay below 1.35; thread CPU time "
+      "only confirms (slope > 1.5, > 50 ms, twice), otherwise inconclusive. Wall-clock time is never used.",
+      "Trusted base: Go runtime memory statistics and the counting hooks. Growth beyond the measured sizes or for unlisted fragments is out of reach.", "DESIGN.md §5 C20")
 
 NOT_BUILT = "check not built yet (work in progress; see DESIGN.md §5)"
 
